@@ -152,6 +152,19 @@ def record_random(args):
                 raise
             got = [f'raised-{type(e).__name__}', 'noexec']
         out.append({'w': w, 'fl': fl, 'sv': sv, 'lock': lk, 'got': got})
+        # a witness that defines handle 0 itself (the non-native lock keeps its root in def 0): the lock's definition wins
+        if r.random() < 0.15:
+            foreign_root = ref_root(E.public_key(s2), oscript)
+            body = push(foreign_root)
+            pre = op('DEF', b1(0), bytes([0, len(body)]), body)
+            w3 = r.choice(['scriptother', 'scriptkeyother', 'keyother', 'scriptspend', 'keyspend'])
+            try:
+                a = one(F, T, s1, s2, script, oscript, w3, 'f0', 'native', sf, pre)
+                b = one(F, T, s1, s2, script, oscript, w3, 'f0', 'nonnative', sf, pre)
+                out.append({'w': 'eq', 'fl': 'f0', 'sv': sv, 'lock': 'both', 'got': [a[0], b[0]]})
+            except BaseException as e:
+                if isinstance(e, (KeyboardInterrupt, SystemExit)):
+                    raise
         # a witness that ends in RETURN after pushing its items: the committed script must still run to completion (a stale
         # RETURN marker would end it at its first block), natively and non-natively alike
         if r.random() < 0.2:
